@@ -12,42 +12,37 @@ From Ont Require Import Proofs.Codec Proofs.Program Proofs.Sig.
 Local Open Scope N_scope.
 
 (** * The abstract verification function *)
-Lemma abs_verify_true k h s :
-  abs_verify k h s = VTrue <-> exists k', s = SigOf k' h /\ same_signer k k' = true.
+Lemma abs_verify_true_inv weak k h s :
+  abs_verify weak k h s = VTrue -> exists k' pc, s = SigOf k' h pc /\ same_signer k k' = true.
 Proof.
-  destruct s as [k' m'| |]; cbn [abs_verify].
-  - split.
-    + destruct (same_signer k k') eqn:S; cbn [andb]; [|discriminate].
-      destruct (bytes_eqb h m') eqn:B; [|discriminate]. apply bytes_eqb_eq in B. subst. eauto.
-    + intros (k'' & E & S). injection E as E1 E2. subst. rewrite S.
-      assert (B : bytes_eqb h h = true) by (apply bytes_eqb_eq; reflexivity). rewrite B. reflexivity.
-  - split; [discriminate|]. intros (k' & E & _). discriminate.
-  - destruct (pk_type k =? PK_ETHECDSA); (split; [discriminate|]); intros (k' & E & _); discriminate.
+  unfold abs_verify. destruct (weak k && _); [discriminate|].
+  destruct s as [k' m' pc|pc|]; [|discriminate|destruct (pk_type k =? PK_ETHECDSA); discriminate].
+  destruct (same_signer k k') eqn:S; cbn [andb]; [|discriminate].
+  destruct (bytes_eqb h m') eqn:B; [|discriminate]. apply bytes_eqb_eq in B. subst. eauto.
 Qed.
 
-Lemma abs_verify_other_hash k k' h h' : h' <> h -> abs_verify k h' (SigOf k' h) = VFalse.
+Lemma abs_verify_panic weak k h s :
+  abs_verify weak k h s = VPanic ->
+  (weak k = true /\ In (pk_curve k) (sig_panic_curves s)) \/ (s = SigEthShort /\ pk_type k = PK_ETHECDSA).
 Proof.
-  intro N. cbn [abs_verify]. destruct (bytes_eqb h' h) eqn:B.
-  - apply bytes_eqb_eq in B. contradiction.
-  - rewrite andb_false_r. reflexivity.
-Qed.
-
-Lemma abs_verify_panic k h s :
-  abs_verify k h s = VPanic <-> s = SigEthShort /\ pk_type k = PK_ETHECDSA.
-Proof.
-  destruct s as [k' m'| |]; cbn [abs_verify].
-  - destruct (same_signer k k' && bytes_eqb h m'); split; try discriminate; intros [E _]; discriminate.
-  - split; [discriminate|intros [E _]; discriminate].
-  - destruct (N.eqb_spec (pk_type k) PK_ETHECDSA) as [E|E]; split; try discriminate; auto.
-    intros [_ E']. contradiction.
+  unfold abs_verify. destruct (weak k) eqn:W; cbn [andb].
+  - destruct (existsb _ _) eqn:X.
+    + intros _. left. split; [reflexivity|]. apply existsb_exists in X. destruct X as (c & Hc & E).
+      apply N.eqb_eq in E. subst. exact Hc.
+    + destruct s as [k' m' pc|pc|]; [destruct (same_signer k k' && bytes_eqb h m'); discriminate|discriminate|].
+      destruct (N.eqb_spec (pk_type k) PK_ETHECDSA); [auto|discriminate].
+  - destruct s as [k' m' pc|pc|]; [destruct (same_signer k k' && bytes_eqb h m'); discriminate|discriminate|].
+    destruct (N.eqb_spec (pk_type k) PK_ETHECDSA); [auto|discriminate].
 Qed.
 
 Section Abstract.
+Variable weak : pubkey -> bool.
 Variable deser : bytes -> option pubkey.
 Variable sdeser : bytes -> option asig.
 Variable H : bytes -> bytes.
 Variable Keth : bytes -> bytes.
 
+Notation abs_verify := (abs_verify weak).
 Notation get_sig := (get_sig deser).
 Notation find_slot := (find_slot asig abs_verify).
 Notation multi_loop := (multi_loop asig sdeser abs_verify).
@@ -62,50 +57,12 @@ Notation sigset_valid := (sigset_valid asig sdeser abs_verify).
 (** [signed_by k h sb]: the byte string [sb] is a signature over the message [h] made by the
     holder of key [k]. *)
 Definition signed_by (k : pubkey) (h sb : bytes) : Prop :=
-  exists k', sdeser sb = Some (SigOf k' h) /\ same_signer k k' = true.
+  exists k' pc, sdeser sb = Some (SigOf k' h pc) /\ same_signer k k' = true.
 
-Lemma verifies_signed_by k h sb : verifies k h sb <-> signed_by k h sb.
+Lemma verifies_signed_by k h sb : verifies k h sb -> signed_by k h sb.
 Proof.
-  unfold Sig.verifies, signed_by. split.
-  - intros (s & D & V). apply abs_verify_true in V. destruct V as (k' & -> & S). eauto.
-  - intros (k' & D & S). exists (SigOf k' h). split; [exact D|]. apply abs_verify_true. eauto.
-Qed.
-
-(** ** A different hash *)
-Lemma check_sigset_hash_change h h' r a :
-  check_sigset h r = COk a -> h' <> h -> exists e, check_sigset h' r = CErr e.
-Proof.
-  intros E N. unfold Sig.check_sigset in *. destruct (get_sig r) as [ss|e]; [|discriminate].
-  destruct (sig_param_bad _ _ _) eqn:P; [discriminate|].
-  pose proof P as P'. apply sig_param_bad_spec in P'. destruct P' as (P1 & P2 & P3 & P4).
-  destruct (Z.eqb_spec (Z.of_nat (length (ss_keys ss))) 1) as [K1|K1].
-  - destruct (ss_keys ss) as [|k ks]; [discriminate|].
-    destruct (ss_sigdata ss) as [|sb rest]; [discriminate|].
-    unfold Sig.verify_single in *. destruct (sdeser sb) as [s|]; [|discriminate].
-    destruct (abs_verify k h s) eqn:V; try discriminate.
-    apply abs_verify_true in V. destruct V as (k' & -> & _).
-    rewrite abs_verify_other_hash by exact N. eauto.
-  - destruct (verify_multi h (ss_keys ss) (Z.of_N (ss_m ss)) (ss_sigdata ss)) eqn:VM; try discriminate.
-    unfold Sig.verify_multi in *. destruct (multi_not_enough _ _); [discriminate|].
-    destruct (Z.to_nat (Z.of_N (ss_m ss))) as [|m] eqn:M; [lia|].
-    cbn [Sig.multi_loop] in *. destruct (ss_sigdata ss) as [|sb rest]; [discriminate|].
-    destruct (sdeser sb) as [s|]; [|discriminate].
-    destruct (find_slot h s (ss_keys ss) _) as [mask'| |] eqn:F; try discriminate.
-    destruct (find_slot_found _ _ _ _ _ _ _ F) as (p & k & _ & _ & V & _).
-    apply abs_verify_true in V. destruct V as (k' & -> & _).
-    rewrite find_slot_none; [eauto|]. intros k0 _. apply abs_verify_other_hash. exact N.
-Qed.
-
-Theorem hash_mutation_rejected_proof t addrs h' p' :
-  cts t = VAccept addrs -> h' <> v_hash t ->
-  exists e, cts (mkVtx false h' p' (v_sigs t)) = VReject e.
-Proof.
-  unfold Sig.check_transaction_signatures. cbn [v_eip v_hash v_payer v_sigs].
-  destruct (v_eip t); [discriminate|]. destruct (too_many_sigs _); [discriminate|].
-  destruct (v_sigs t) as [|r rest].
-  - cbn [Sig.check_sigs]. cbn [mem_addr existsb]. discriminate.
-  - cbn [Sig.check_sigs]. destruct (check_sigset (v_hash t) r) as [a| |] eqn:C; try discriminate.
-    intros _ N. destruct (check_sigset_hash_change _ _ _ _ C N) as (e & ->). eauto.
+  intros (s & D & V). apply abs_verify_true_inv in V. destruct V as (k' & pc & -> & S).
+  exists k', pc. auto.
 Qed.
 
 (** ** accept_sound, abstract reading *)
@@ -118,13 +75,35 @@ Definition sigset_signed (h : bytes) (ss : sigset) : Prop :=
       exists k sb, nth_error (ss_keys ss) (nth i ps 0%nat) = Some k /\
                    nth_error (ss_sigdata ss) i = Some sb /\ signed_by k h sb.
 
-Lemma sigset_valid_signed h ss : sigset_valid h ss <-> sigset_signed h ss.
+Lemma sigset_valid_signed h ss : sigset_valid h ss -> sigset_signed h ss.
 Proof.
   unfold Sig.sigset_valid, sigset_signed. cbv zeta.
-  split; intros (A & B & C & ps & L & ND & V); (split; [exact A|]; split; [exact B|]; split; [exact C|]);
-    exists ps; (split; [exact L|]; split; [exact ND|]); intros i Hi;
-    destruct (V i Hi) as (k & sb & K & S & X); exists k, sb; (split; [exact K|]; split; [exact S|]);
-    apply verifies_signed_by; exact X.
+  intros (A & B & C & ps & L & ND & V). split; [exact A|]. split; [exact B|]. split; [exact C|].
+  exists ps. split; [exact L|]. split; [exact ND|]. intros i Hi.
+  destruct (V i Hi) as (k & sb & K & S & X). exists k, sb. split; [exact K|]. split; [exact S|].
+  apply verifies_signed_by. exact X.
+Qed.
+
+(** ** A different hash: the signatures of an accepted transaction under any other hash are
+    never accepted. *)
+Theorem hash_mutation_not_accepted_proof t addrs h' p' :
+  cts t = VAccept addrs -> h' <> v_hash t ->
+  forall addrs', cts (mkVtx false h' p' (v_sigs t)) <> VAccept addrs'.
+Proof.
+  intros E N addrs' E'.
+  destruct (accept_sound_proof _ _ _ _ _ _ _ _ E) as (_ & _ & F & O & P & _).
+  destruct (accept_sound_proof _ _ _ _ _ _ _ _ E') as (_ & _ & F' & _).
+  cbn [v_sigs v_hash] in F'.
+  destruct (O _ P) as (r & ss & Hr & G & _).
+  rewrite Forall_forall in F, F'.
+  destruct (F r Hr) as (ss1 & a1 & G1 & V1 & _). destruct (F' r Hr) as (ss2 & a2 & G2 & V2 & _).
+  rewrite G in G1, G2. injection G1 as <-. injection G2 as <-.
+  apply sigset_valid_signed in V1, V2.
+  destruct V1 as (M1 & _ & _ & ps1 & _ & _ & S1). destruct V2 as (_ & _ & _ & ps2 & _ & _ & S2).
+  assert (Z0 : (0 < N.to_nat (ss_m ss))%nat) by lia.
+  destruct (S1 _ Z0) as (k1 & sb1 & _ & B1 & (k1' & pc1 & D1 & _)).
+  destruct (S2 _ Z0) as (k2 & sb2 & _ & B2 & (k2' & pc2 & D2 & _)).
+  rewrite B1 in B2. injection B2 as <-. rewrite D1 in D2. injection D2 as _ Eh _. congruence.
 Qed.
 
 (** ** When the validator panics *)
@@ -139,6 +118,10 @@ Definition keys_sane (t : vtx) : Prop :=
 Definition no_eth_short (t : vtx) : Prop :=
   forall r ss sb k, In r (v_sigs t) -> get_sig r = inl ss -> In sb (ss_sigdata ss) -> In k (ss_keys ss) ->
     sdeser sb = Some SigEthShort -> pk_type k <> PK_ETHECDSA.
+
+(** No parsed key is an off-curve EC point. *)
+Definition no_weak_key (t : vtx) : Prop :=
+  forall r ss k, In r (v_sigs t) -> get_sig r = inl ss -> In k (ss_keys ss) -> weak k = false.
 
 Lemma push_all_sane ds : Forall (fun d => d <> [] /\ N.of_nat (length d) < two32) ds ->
   exists e, push_all ds = Some e.
@@ -179,28 +162,39 @@ Proof.
     destruct (find_slot h s ks bs); try discriminate. contradiction.
 Qed.
 
+(** The per-set form of the two hypotheses. *)
+Definition set_calm (keys : list pubkey) (sigs : list bytes) : Prop :=
+  (forall k, In k keys -> weak k = false) /\
+  (forall sb k, In sb sigs -> In k keys -> sdeser sb = Some SigEthShort -> pk_type k <> PK_ETHECDSA).
+
+Lemma calm_no_panic keys sigs h sb s k :
+  set_calm keys sigs -> In sb sigs -> In k keys -> sdeser sb = Some s -> abs_verify k h s <> VPanic.
+Proof.
+  intros (W & A) Hs Hk D V. apply abs_verify_panic in V. destruct V as [(Wk & _)|(-> & T)].
+  - rewrite (W k Hk) in Wk. discriminate.
+  - exact (A sb k Hs Hk D T).
+Qed.
+
 Lemma multi_loop_no_crash h keys : forall m sigs mask,
-  (m <= length sigs)%nat ->
-  (forall sb k, In sb sigs -> In k keys -> sdeser sb = Some SigEthShort -> pk_type k <> PK_ETHECDSA) ->
-  multi_loop h keys m sigs mask <> MCrash.
+  (m <= length sigs)%nat -> set_calm keys sigs -> multi_loop h keys m sigs mask <> MCrash.
 Proof.
   induction m as [|m IH]; intros sigs mask L A; [discriminate|].
   cbn [Sig.multi_loop]. destruct sigs as [|sb rest]; [simpl in L; lia|].
   destruct (sdeser sb) as [s|] eqn:D; [|discriminate].
   destruct (find_slot h s keys mask) as [mask'| |] eqn:F; [|discriminate|].
-  - apply IH; [simpl in L; lia|]. intros sb' k Hs Hk. apply A; [right; exact Hs|exact Hk].
-  - exfalso. revert F. apply find_slot_no_crash. intros k Hk V.
-    apply abs_verify_panic in V. destruct V as (-> & T). exact (A sb k (or_introl eq_refl) Hk D T).
+  - apply IH; [simpl in L; lia|]. destruct A as (W & A). split; [exact W|].
+    intros sb' k Hs Hk. apply A; [right; exact Hs|exact Hk].
+  - exfalso. revert F. apply find_slot_no_crash. intros k Hk.
+    eapply calm_no_panic; [exact A|left; reflexivity|exact Hk|exact D].
 Qed.
 
 Lemma check_sigset_no_crash h r :
   (forall ss k, get_sig r = inl ss -> In k (ss_keys ss) -> ser_sane k) ->
-  (forall ss sb k, get_sig r = inl ss -> In sb (ss_sigdata ss) -> In k (ss_keys ss) ->
-     sdeser sb = Some SigEthShort -> pk_type k <> PK_ETHECDSA) ->
+  (forall ss, get_sig r = inl ss -> set_calm (ss_keys ss) (ss_sigdata ss)) ->
   check_sigset h r <> CCrash.
 Proof.
-  intros Sane NoShort. unfold Sig.check_sigset. destruct (get_sig r) as [ss|e]; [|discriminate].
-  specialize (Sane ss). specialize (NoShort ss).
+  intros Sane Calm. unfold Sig.check_sigset. destruct (get_sig r) as [ss|e]; [|discriminate].
+  specialize (Sane ss). specialize (Calm ss eq_refl).
   destruct (sig_param_bad _ _ _) eqn:P; [discriminate|].
   apply sig_param_bad_spec in P. destruct P as (P1 & P2 & P3 & P4).
   destruct (Z.eqb_spec (Z.of_nat (length (ss_keys ss))) 1) as [K1|K1].
@@ -209,59 +203,76 @@ Proof.
     unfold Sig.verify_single. destruct (sdeser sb) as [s|] eqn:D; [|discriminate].
     destruct (abs_verify k h s) eqn:V; [|discriminate|].
     + destruct (address_single_sane k) as (a & ->); [apply Sane; [reflexivity|left; reflexivity]|discriminate].
-    + exfalso. apply abs_verify_panic in V. destruct V as (-> & T).
-      exact (NoShort sb k eq_refl (or_introl eq_refl) (or_introl eq_refl) D T).
+    + exfalso. revert V. eapply calm_no_panic; [exact Calm|left; reflexivity|left; reflexivity|exact D].
   - destruct (verify_multi h (ss_keys ss) (Z.of_N (ss_m ss)) (ss_sigdata ss)) eqn:VM; [|discriminate|].
     + pose proof (address_multi_sane (ss_keys ss) (Z.of_N (ss_m ss))) as AM.
       destruct (address_from_multi_pubkeys H (ss_keys ss) (Z.of_N (ss_m ss))); try discriminate.
       exfalso. apply AM; [|reflexivity]. apply Forall_forall. intros k Hk. apply Sane; [reflexivity|exact Hk].
     + exfalso. revert VM. unfold Sig.verify_multi. destruct (multi_not_enough _ _) eqn:NE; [discriminate|].
-      apply multi_not_enough_spec in NE. apply multi_loop_no_crash; [lia|].
-      intros sb k Hs Hk. apply NoShort; [reflexivity|exact Hs|exact Hk].
+      apply multi_not_enough_spec in NE. apply multi_loop_no_crash; [lia|exact Calm].
 Qed.
 
 Lemma check_sigs_no_crash h : forall rs acc,
   (forall r ss k, In r rs -> get_sig r = inl ss -> In k (ss_keys ss) -> ser_sane k) ->
-  (forall r ss sb k, In r rs -> get_sig r = inl ss -> In sb (ss_sigdata ss) -> In k (ss_keys ss) ->
-     sdeser sb = Some SigEthShort -> pk_type k <> PK_ETHECDSA) ->
+  (forall r ss, In r rs -> get_sig r = inl ss -> set_calm (ss_keys ss) (ss_sigdata ss)) ->
   check_sigs h rs acc <> LCrash.
 Proof.
-  induction rs as [|r rest IH]; intros acc Sane NoShort; [discriminate|].
+  induction rs as [|r rest IH]; intros acc Sane Calm; [discriminate|].
   cbn [Sig.check_sigs].
   pose proof (check_sigset_no_crash h r (fun ss k => Sane r ss k (or_introl eq_refl))
-                (fun ss sb k => NoShort r ss sb k (or_introl eq_refl))) as NC.
+                (fun ss => Calm r ss (or_introl eq_refl))) as NC.
   destruct (check_sigset h r); [|discriminate|contradiction].
   apply IH.
   - intros r' ss k Hr. apply Sane. right. exact Hr.
-  - intros r' ss sb k Hr. apply NoShort. right. exact Hr.
+  - intros r' ss Hr. apply Calm. right. exact Hr.
 Qed.
 
-Theorem no_crash_proof t : keys_sane t -> no_eth_short t -> cts t <> VCrash.
+Theorem no_crash_proof t : keys_sane t -> no_eth_short t -> no_weak_key t -> cts t <> VCrash.
 Proof.
-  intros Sane NoShort. unfold Sig.check_transaction_signatures.
+  intros Sane NoShort NoWeak. unfold Sig.check_transaction_signatures.
   destruct (v_eip t); [discriminate|]. destruct (too_many_sigs _); [discriminate|].
-  pose proof (check_sigs_no_crash (v_hash t) (v_sigs t) [] Sane NoShort) as NC.
+  assert (Calm : forall r ss, In r (v_sigs t) -> get_sig r = inl ss -> set_calm (ss_keys ss) (ss_sigdata ss)).
+  { intros r ss Hr G. split.
+    - intros k Hk. exact (NoWeak r ss k Hr G Hk).
+    - intros sb k Hs Hk. exact (NoShort r ss sb k Hr G Hs Hk). }
+  pose proof (check_sigs_no_crash (v_hash t) (v_sigs t) [] Sane Calm) as NC.
   destruct (check_sigs (v_hash t) (v_sigs t) []) as [ad| |]; [|discriminate|contradiction].
   destruct (mem_addr (v_payer t) ad); discriminate.
 Qed.
 
-(** ** A changed counted signature, outside the crash class *)
+(** An Ontology-format run that neither accepts nor panics rejects. *)
+Lemma not_accept_not_crash_reject t :
+  v_eip t = false -> (forall addrs, cts t <> VAccept addrs) -> cts t <> VCrash -> exists e, cts t = VReject e.
+Proof.
+  intros Eip NA NC. destruct (cts t) as [ad| |e|] eqn:E; [exfalso; exact (NA ad eq_refl)| |eauto|contradiction].
+  exfalso. revert E. unfold Sig.check_transaction_signatures. rewrite Eip.
+  destruct (too_many_sigs _); [discriminate|].
+  destruct (check_sigs _ _ _) as [ad| |]; try discriminate. destruct (mem_addr _ _); discriminate.
+Qed.
+
+(** ** A changed counted signature, outside the crash classes *)
 Theorem signature_mutation_rejected_partial_proof t r ss i sb :
-  v_eip t = false -> keys_sane t -> no_eth_short t ->
+  v_eip t = false -> keys_sane t -> no_eth_short t -> no_weak_key t ->
   In r (v_sigs t) -> get_sig r = inl ss ->
   (i < N.to_nat (ss_m ss))%nat -> nth_error (ss_sigdata ss) i = Some sb ->
   (forall k, In k (ss_keys ss) -> ~ signed_by k (v_hash t) sb) ->
   exists e, cts t = VReject e.
 Proof.
-  intros Eip Sane NoShort Hr G Hi Hsb Bad.
-  assert (NA : forall addrs, cts t <> VAccept addrs).
-  { eapply bad_signature_not_accepted_proof; try eassumption.
-    intros k Hk V. apply (Bad k Hk). apply verifies_signed_by. exact V. }
-  pose proof (no_crash_proof t Sane NoShort) as NC.
-  destruct (cts t) as [ad| |e|] eqn:E; [exfalso; exact (NA ad eq_refl)| |eauto|contradiction].
-  exfalso. revert E. unfold Sig.check_transaction_signatures. rewrite Eip.
-  destruct (too_many_sigs _); [discriminate|].
-  destruct (check_sigs _ _ _) as [ad| |]; try discriminate. destruct (mem_addr _ _); discriminate.
+  intros Eip Sane NoShort NoWeak Hr G Hi Hsb Bad.
+  apply not_accept_not_crash_reject; [exact Eip| |apply no_crash_proof; assumption].
+  eapply bad_signature_not_accepted_proof; try eassumption.
+  intros k Hk V. apply (Bad k Hk). apply verifies_signed_by. exact V.
+Qed.
+
+(** ** A changed hash, outside the crash classes *)
+Theorem hash_mutation_rejected_partial_proof t addrs h' p' :
+  cts t = VAccept addrs -> h' <> v_hash t ->
+  keys_sane t -> no_eth_short t -> no_weak_key t ->
+  exists e, cts (mkVtx false h' p' (v_sigs t)) = VReject e.
+Proof.
+  intros E N Sane NoShort NoWeak.
+  apply not_accept_not_crash_reject; [reflexivity|eapply hash_mutation_not_accepted_proof; eassumption|].
+  apply no_crash_proof; assumption.
 Qed.
 
 End Abstract.
@@ -296,4 +307,28 @@ Proof.
   unfold same_signer. destruct (is_ec a) eqn:Ea, (is_ec b) eqn:Eb, (is_ec c) eqn:Ec; cbn [andb];
     rewrite ?andb_true_iff, ?N.eqb_eq, ?pubkey_eqb_eq; try (intros; subst; congruence).
   intros ((-> & ->) & ->) ((-> & ->) & ->). auto.
+Qed.
+
+(** * The counted signatures come from pairwise different signers
+    (when the key list itself does not name one signer at two positions). *)
+Theorem counted_signers_distinct_proof sdeser h ss :
+  sigset_signed sdeser h ss ->
+  (forall p q kp kq, p <> q -> nth_error (ss_keys ss) p = Some kp -> nth_error (ss_keys ss) q = Some kq ->
+     same_signer kp kq = false) ->
+  forall i j sbi sbj a b, (i < N.to_nat (ss_m ss))%nat -> (j < N.to_nat (ss_m ss))%nat -> i <> j ->
+    nth_error (ss_sigdata ss) i = Some sbi -> nth_error (ss_sigdata ss) j = Some sbj ->
+    forall pa pb, sdeser sbi = Some (SigOf a h pa) -> sdeser sbj = Some (SigOf b h pb) ->
+    same_signer a b = false.
+Proof.
+  intros (_ & _ & _ & ps & L & ND & V) Distinct i j sbi sbj a b Hi Hj Nij Si Sj pa pb Di Dj.
+  destruct (V i Hi) as (ki & sbi' & Ki & Si' & (ai & pci & Di' & SSi)).
+  destruct (V j Hj) as (kj & sbj' & Kj & Sj' & (aj & pcj & Dj' & SSj)).
+  rewrite Si in Si'. injection Si' as <-. rewrite Sj in Sj'. injection Sj' as <-.
+  rewrite Di in Di'. injection Di' as <- _. rewrite Dj in Dj'. injection Dj' as <- _.
+  assert (Np : nth i ps 0%nat <> nth j ps 0%nat).
+  { intro E. apply Nij. apply (proj1 (NoDup_nth ps 0%nat) ND); [lia|lia|exact E]. }
+  pose proof (Distinct _ _ _ _ Np Ki Kj) as D.
+  destruct (same_signer a b) eqn:SAB; [|reflexivity].
+  rewrite <- D. symmetry. apply (same_signer_trans ki a kj); [exact SSi|].
+  apply (same_signer_trans a b kj); [exact SAB|]. rewrite same_signer_sym. exact SSj.
 Qed.
